@@ -86,7 +86,7 @@ func runC16(t *testing.T, c *choice.Stream, r *Result, opt RunOpt) {
 		r.Sample = map[string]any{"type": cs.Type, "history": names}
 	}()
 	for i := 0; i < n && r.Outcome != "violation"; i++ {
-		op := []string{"append", "reset", "prepare", "encode", "write", "rawblock", "infer", "decode", "faildecode"}[c.Weighted("op", 6, 2, 1, 5, 3, 2, 1, 3, 2)]
+		op := []string{"append", "reset", "prepare", "encode", "write", "rawblock", "infer", "decode", "faildecode", "overwrite"}[c.Weighted("op", 6, 2, 1, 5, 3, 2, 1, 3, 2, 2)]
 		fmt.Fprintf(h, "|%s", op)
 		switch op {
 		case "append":
@@ -101,6 +101,18 @@ func runC16(t *testing.T, c *choice.Stream, r *Result, opt RunOpt) {
 			}
 			model = append(model, vals...)
 			mutated = true
+		case "overwrite":
+			// the caller edits a row in place where the column's storage allows it
+			if len(model) == 0 {
+				break
+			}
+			i := c.Draw("overwrite.i", len(model))
+			v := gen.Values(vr, cs.RT, 1)[0]
+			if gen.Overwrite(col, cs.RT, i, v) {
+				names = append(names, fmt.Sprintf("overwrite(%d)", i))
+				model[i] = v
+				mutated = true
+			}
 		case "reset":
 			names = append(names, "reset")
 			col.Reset()
